@@ -120,7 +120,7 @@ def make_scenario(seed, idx, tool):
     utts = []
     for u in range(nutt):
         n = int(rng.integers(int(0.05 * rate), int(0.25 * rate)))
-        utts.append({"id": "utt%d%s" % (u, str(rng.choice(["", "-a", "_x"]))), "n": n, "channels": (channel + 1 + int(rng.integers(0, 2))) if multi else 1, "rate": rate,
+        utts.append({"id": ("spk1.utt%d" % u) if (idx % 3 == 2 and u < 2) else "utt%d%s" % (u, str(rng.choice(["", "-a", "_x", ".v2"]))), "n": n, "channels": (channel + 1 + int(rng.integers(0, 2))) if multi else 1, "rate": rate,
                      "container": "wav" if tool == "kaldi" else str(rng.choice(["npy", "pt", "npz", "hdf5"] if multi else ["wav", "npy", "pt", "npz", "hdf5", "sph"]))})
     i_one, i_short = (int(v) for v in rng.permutation(nutt)[:2])  # two different utterances
     if comp is not None and comp["name"] == "stft":
